@@ -1,0 +1,763 @@
+//go:build verif
+
+// Verification hooks: compiled only with -tags verif.  Nothing here runs unless the
+// environment variable OBFS4PROXY_VERIF_DRIVER is set; when it is, a scripted driver for
+// the unexported copyLoop / termMonitor / client- and serverHandler runs on stdin/stdout
+// and the process exits before main() proceeds.  No existing behaviour is changed.
+//
+// Line protocol (one request line, one reply line):
+//
+//	relay.new                      start the real copyLoop(A, B) on two scripted conns
+//	feed <A|B> <hex>               the side produces data (appended to the conn's inbox)
+//	fin <A|B> <eof|err>            the side ends (after the data produced so far)
+//	rd <ab|ba> <n> [fin]           the parked Read of that copier completes (<= n bytes; with
+//	                               `fin` the final chunk is returned together with EOF/error)
+//	wr <ab|ba> <ok|short k|err k>  the parked Write of that copier completes
+//	cl <ab|ba>                     the parked Close of that copier completes
+//	relay.end                      tear the scenario down (every parked op fails "closed")
+//	term.new | term.wait <0|1> | term.ev <start|finish|int|term> | term.handler <kind> <path>
+//	term.end
+//
+// Every Read/Write/Close on the scripted conns blocks until the script completes it, so the
+// script decides the interleaving of the two copier goroutines step by step.  After each
+// command the driver waits until every other goroutine is parked (goroutine dump: observed,
+// not inferred from a timeout) and replies with the events logged since the last reply and
+// the parked operation of each copier.
+package main
+
+import (
+	"bufio"
+	"bytes"
+	"encoding/hex"
+	"errors"
+	"fmt"
+	"io"
+	"net"
+	"os"
+	"runtime"
+	"strconv"
+	"strings"
+	"sync"
+	"syscall"
+	"time"
+
+	pt "gitlab.torproject.org/tpo/anti-censorship/pluggable-transports/goptlib"
+
+	"gitlab.com/yawning/obfs4.git/transports/base"
+)
+
+func init() {
+	if os.Getenv("OBFS4PROXY_VERIF_DRIVER") == "" {
+		return
+	}
+	verifDriverMain()
+	os.Exit(0)
+}
+
+// ---------------------------------------------------------------- quiescence
+
+func verifGoid() int64 {
+	var buf [64]byte
+	n := runtime.Stack(buf[:], false)
+	f := strings.Fields(string(buf[:n]))
+	if len(f) < 2 {
+		return -1
+	}
+	id, _ := strconv.ParseInt(f[1], 10, 64)
+	return id
+}
+
+var verifParkedStates = map[string]bool{
+	"chan receive": true, "chan send": true, "select": true, "semacquire": true,
+	"sync.Cond.Wait": true, "sync.Mutex.Lock": true, "sync.RWMutex.Lock": true,
+	"sync.WaitGroup.Wait": true, "select (no cases)": true,
+	"chan receive (nil chan)": true, "chan send (nil chan)": true,
+}
+
+// verifGoroutines returns the header state and the stack text of every goroutine but the caller.
+func verifGoroutines() (states []string, stacks []string) {
+	buf := make([]byte, 1<<16)
+	for {
+		n := runtime.Stack(buf, true)
+		if n < len(buf) {
+			buf = buf[:n]
+			break
+		}
+		buf = make([]byte, 2*len(buf))
+	}
+	for i, blk := range strings.Split(string(buf), "\n\n") {
+		if i == 0 || !strings.HasPrefix(blk, "goroutine ") {
+			continue // the first block is the calling goroutine
+		}
+		o, c := strings.IndexByte(blk, '['), strings.IndexByte(blk, ']')
+		if o < 0 || c < o {
+			continue
+		}
+		st := blk[o+1 : c]
+		if k := strings.IndexByte(st, ','); k >= 0 {
+			st = st[:k]
+		}
+		states = append(states, st)
+		stacks = append(stacks, blk)
+	}
+	return
+}
+
+// verifQuiesce waits until every goroutine other than the caller is parked on a channel,
+// select, condition variable or semaphore.  The code under test has no timers, so a parked
+// configuration cannot change until the driver acts.  Returns false if that state is not
+// reached (a goroutine keeps running): reported, never silently ignored.
+func verifQuiesce() bool {
+	deadline := time.Now().Add(10 * time.Second)
+	for i := 0; ; i++ {
+		runtime.Gosched()
+		states, stacks := verifGoroutines()
+		ok := true
+		for i, s := range states {
+			if !verifParkedStates[s] && !strings.Contains(stacks[i], "verifAcceptLoop") {
+				ok = false
+				break
+			}
+		}
+		if ok {
+			return true
+		}
+		if i > 20 {
+			time.Sleep(20 * time.Microsecond)
+		}
+		if time.Now().After(deadline) {
+			return false
+		}
+	}
+}
+
+// ---------------------------------------------------------------- scripted conns for copyLoop
+
+type verifErr string
+
+func (e verifErr) Error() string { return string(e) }
+
+const verifClosed = verifErr("verif: use of closed connection")
+
+func verifErrClass(err error) string {
+	var ve verifErr
+	switch {
+	case err == nil:
+		return "nil"
+	case errors.Is(err, io.ErrShortWrite):
+		return "short"
+	case errors.As(err, &ve):
+		switch {
+		case ve == verifClosed:
+			return "closed"
+		case strings.HasPrefix(string(ve), "verif: read error on "):
+			return "rerr" + string(ve[len(ve)-1:])
+		case strings.HasPrefix(string(ve), "verif: write error on "):
+			return "werr" + string(ve[len(ve)-1:])
+		}
+	}
+	return "other(" + strings.ReplaceAll(err.Error(), " ", "_") + ")"
+}
+
+type verifOp struct {
+	kind  string // rd | wr | cl
+	conn  *verifConn
+	buf   []byte // rd: destination, wr: data
+	n     int
+	err   error
+	grant chan struct{}
+}
+
+type verifRelay struct {
+	mu      sync.Mutex
+	conns   map[string]*verifConn
+	dirOf   map[int64]string    // goroutine id -> ab | ba (learned from the conn it first reads)
+	pending map[string]*verifOp // by copier
+	events  []string
+	abort   bool
+	ret     string
+	done    chan struct{}
+}
+
+type verifConn struct {
+	r      *verifRelay
+	name   string
+	inbox  []byte
+	fin    string // "", eof, err
+	closed bool
+}
+
+func (r *verifRelay) dir(c *verifConn, reading bool) string {
+	g := verifGoid()
+	if d, ok := r.dirOf[g]; ok {
+		return d
+	}
+	d := fmt.Sprintf("g%d", g)
+	if reading {
+		d = map[string]string{"A": "ab", "B": "ba"}[c.name]
+		if _, taken := r.pending[d]; taken {
+			d = fmt.Sprintf("g%d", g) // a second reader of the same conn is not one of the two copiers
+		}
+	}
+	r.dirOf[g] = d
+	return d
+}
+
+// park registers the operation and blocks until the script completes it.
+func (c *verifConn) park(op *verifOp, reading bool) {
+	r := c.r
+	r.mu.Lock()
+	if r.abort {
+		r.mu.Unlock()
+		op.n, op.err = 0, verifClosed
+		return
+	}
+	d := r.dir(c, reading)
+	if old, busy := r.pending[d]; busy && old != op {
+		d = fmt.Sprintf("%s+g%d", d, verifGoid())
+	}
+	r.pending[d] = op
+	r.mu.Unlock()
+	<-op.grant
+}
+
+func (c *verifConn) Read(p []byte) (int, error) {
+	op := &verifOp{kind: "rd", conn: c, buf: p, grant: make(chan struct{})}
+	c.park(op, true)
+	return op.n, op.err
+}
+
+func (c *verifConn) Write(p []byte) (int, error) {
+	op := &verifOp{kind: "wr", conn: c, buf: p, grant: make(chan struct{})}
+	c.park(op, false)
+	return op.n, op.err
+}
+
+func (c *verifConn) Close() error {
+	op := &verifOp{kind: "cl", conn: c, grant: make(chan struct{})}
+	c.park(op, false)
+	return op.err
+}
+
+func (c *verifConn) LocalAddr() net.Addr                { return &net.IPAddr{IP: net.IPv4(127, 0, 0, 1)} }
+func (c *verifConn) RemoteAddr() net.Addr               { return &net.IPAddr{IP: net.IPv4(127, 0, 0, 2)} }
+func (c *verifConn) SetDeadline(_ time.Time) error      { return nil }
+func (c *verifConn) SetReadDeadline(_ time.Time) error  { return nil }
+func (c *verifConn) SetWriteDeadline(_ time.Time) error { return nil }
+
+func verifHex(b []byte) string {
+	if len(b) == 0 {
+		return "-"
+	}
+	return hex.EncodeToString(b)
+}
+
+func verifUnhex(s string) ([]byte, bool) {
+	if s == "-" {
+		return nil, true
+	}
+	b, err := hex.DecodeString(s)
+	return b, err == nil
+}
+
+func (r *verifRelay) status() string {
+	r.mu.Lock()
+	defer r.mu.Unlock()
+	var sb strings.Builder
+	sb.WriteString(strings.Join(r.events, " "))
+	r.events = r.events[:0]
+	sb.WriteString(" ;")
+	keys := []string{"ab", "ba"}
+	for k := range r.pending {
+		if k != "ab" && k != "ba" {
+			keys = append(keys, k)
+		}
+	}
+	for _, k := range keys {
+		op := r.pending[k]
+		switch {
+		case op == nil:
+			fmt.Fprintf(&sb, " %s=-", k)
+		case op.kind == "wr":
+			fmt.Fprintf(&sb, " %s=wr:%s:%d", k, op.conn.name, len(op.buf))
+		default:
+			fmt.Fprintf(&sb, " %s=%s:%s", k, op.kind, op.conn.name)
+		}
+	}
+	if r.ret != "" {
+		sb.WriteString(" ret=" + r.ret)
+	}
+	return sb.String()
+}
+
+// complete finishes the parked op of copier d as the script says; returns false if the
+// command does not apply to the current state (nothing happens then).
+func (r *verifRelay) complete(d string, w []string) bool {
+	r.mu.Lock()
+	op := r.pending[d]
+	if op == nil || op.kind != w[0] {
+		r.mu.Unlock()
+		return false
+	}
+	c := op.conn
+	switch op.kind {
+	case "rd":
+		n, _ := strconv.Atoi(w[2])
+		withFin := len(w) > 3 && w[3] == "fin"
+		switch {
+		case c.closed:
+			op.n, op.err = 0, verifClosed
+			r.events = append(r.events, fmt.Sprintf("read:%s:%s:closed", d, c.name))
+		case len(c.inbox) > 0:
+			if n < 1 {
+				n = 1
+			}
+			if n > len(c.inbox) {
+				n = len(c.inbox)
+			}
+			if n > len(op.buf) {
+				n = len(op.buf)
+			}
+			copy(op.buf, c.inbox[:n])
+			c.inbox = c.inbox[n:]
+			op.n = n
+			cls := "ok"
+			if withFin && len(c.inbox) == 0 && c.fin != "" {
+				cls = c.fin
+				op.err = io.EOF
+				if c.fin == "err" {
+					op.err = verifErr("verif: read error on " + c.name)
+				}
+			}
+			r.events = append(r.events, fmt.Sprintf("read:%s:%s:data:%s:%s", d, c.name, verifHex(op.buf[:n]), cls))
+		case c.fin != "":
+			op.n, op.err = 0, io.EOF
+			if c.fin == "err" {
+				op.err = verifErr("verif: read error on " + c.name)
+			}
+			r.events = append(r.events, fmt.Sprintf("read:%s:%s:%s", d, c.name, c.fin))
+		default:
+			r.mu.Unlock()
+			return false // nothing to read and the side has not ended: the Read stays blocked
+		}
+	case "wr":
+		switch {
+		case c.closed:
+			op.n, op.err = 0, verifClosed
+			r.events = append(r.events, fmt.Sprintf("write:%s:%s:%s:0:closed", d, c.name, verifHex(op.buf)))
+		default:
+			k := 0
+			if len(w) > 3 {
+				k, _ = strconv.Atoi(w[3])
+			}
+			switch w[2] {
+			case "ok":
+				op.n = len(op.buf)
+			case "short":
+				if k >= len(op.buf) {
+					k = len(op.buf) - 1
+				}
+				op.n = k
+			case "err":
+				if k > len(op.buf) {
+					k = len(op.buf)
+				}
+				op.n, op.err = k, verifErr("verif: write error on "+c.name)
+			default:
+				r.mu.Unlock()
+				return false
+			}
+			r.events = append(r.events, fmt.Sprintf("write:%s:%s:%s:%d:%s", d, c.name, verifHex(op.buf), op.n, w[2]))
+		}
+	case "cl":
+		if c.closed {
+			op.err = verifClosed
+		}
+		c.closed = true
+		r.events = append(r.events, fmt.Sprintf("close:%s:%s", d, c.name))
+	}
+	delete(r.pending, d)
+	r.mu.Unlock()
+	close(op.grant)
+	return true
+}
+
+func (r *verifRelay) end() bool {
+	r.mu.Lock()
+	r.abort = true
+	for k, op := range r.pending {
+		op.n, op.err = 0, verifClosed
+		delete(r.pending, k)
+		close(op.grant)
+	}
+	r.mu.Unlock()
+	select {
+	case <-r.done:
+		return true
+	case <-time.After(10 * time.Second):
+		return false
+	}
+}
+
+func verifNewRelay() *verifRelay {
+	r := &verifRelay{conns: map[string]*verifConn{}, dirOf: map[int64]string{},
+		pending: map[string]*verifOp{}, done: make(chan struct{})}
+	a := &verifConn{r: r, name: "A"}
+	b := &verifConn{r: r, name: "B"}
+	r.conns["A"], r.conns["B"] = a, b
+	go func() {
+		err := copyLoop(a, b)
+		r.mu.Lock()
+		r.ret = verifErrClass(err)
+		r.events = append(r.events, "ret:"+r.ret)
+		r.mu.Unlock()
+		close(r.done)
+	}()
+	return r
+}
+
+// ---------------------------------------------------------------- termMonitor driver
+
+type verifTerm struct {
+	m        *termMonitor
+	mu       sync.Mutex
+	waiting  bool
+	returned string
+	pending  int // event senders still blocked
+	handlers int // handler goroutines still running
+}
+
+func verifSigName(s os.Signal) string {
+	switch s {
+	case syscall.SIGINT:
+		return "int"
+	case syscall.SIGTERM:
+		return "term"
+	}
+	return "other"
+}
+
+func (t *verifTerm) status(race bool) string {
+	// the wait goroutine is parked (or gone) when this runs; numHandlers is read without
+	// synchronisation on purpose (skipped under the race detector)
+	t.mu.Lock()
+	defer t.mu.Unlock()
+	st := "idle"
+	if t.waiting {
+		st = "waiting"
+		// structural confirmation: a goroutine parked in select inside termMonitor.wait
+		_, stacks := verifGoroutines()
+		in := false
+		for _, s := range stacks {
+			if strings.Contains(s, "(*termMonitor).wait") && strings.Contains(s, "[select") {
+				in = true
+			}
+		}
+		if !in {
+			st = "waiting?"
+		}
+	} else if t.returned != "" {
+		st = "returned:" + t.returned
+	}
+	n := "?"
+	if !race {
+		n = strconv.Itoa(t.m.numHandlers)
+	}
+	return fmt.Sprintf("%s n=%s pending=%d handlers=%d", st, n, t.pending, t.handlers)
+}
+
+type verifStubTransport struct{}
+
+func (verifStubTransport) Name() string { return "verifstub" }
+func (verifStubTransport) ClientFactory(string) (base.ClientFactory, error) {
+	return nil, errors.New("stub")
+}
+
+func (verifStubTransport) ServerFactory(string, *pt.Args) (base.ServerFactory, error) {
+	return nil, errors.New("stub")
+}
+
+type verifStubFactory struct {
+	path   string
+	remote net.Conn
+}
+
+func (f *verifStubFactory) Transport() base.Transport { return verifStubTransport{} }
+func (f *verifStubFactory) ParseArgs(*pt.Args) (any, error) {
+	if f.path == "argsfail" {
+		return nil, errors.New("verif: bad args")
+	}
+	return nil, nil
+}
+
+func (f *verifStubFactory) Dial(string, string, base.DialFunc, any) (net.Conn, error) {
+	if f.path == "dialfail" {
+		return nil, errors.New("verif: dial failed")
+	}
+	return f.remote, nil
+}
+func (f *verifStubFactory) Args() *pt.Args { return nil }
+func (f *verifStubFactory) WrapConn(c net.Conn) (net.Conn, error) {
+	if f.path == "wrapfail" {
+		return nil, errors.New("verif: handshake failed")
+	}
+	return c, nil
+}
+
+// verifBufConn: Read serves a fixed byte string then EOF; writes are swallowed.
+type verifBufConn struct {
+	verifConn
+	mu     sync.Mutex
+	rd     *bytes.Reader
+	closed bool
+}
+
+func (c *verifBufConn) Read(p []byte) (int, error) {
+	c.mu.Lock()
+	defer c.mu.Unlock()
+	if c.closed {
+		return 0, verifClosed
+	}
+	return c.rd.Read(p)
+}
+
+func (c *verifBufConn) Write(p []byte) (int, error) {
+	c.mu.Lock()
+	defer c.mu.Unlock()
+	if c.closed {
+		return 0, verifClosed
+	}
+	return len(p), nil
+}
+
+func (c *verifBufConn) Close() error {
+	c.mu.Lock()
+	defer c.mu.Unlock()
+	c.closed = true
+	return nil
+}
+
+var verifOrLn *net.TCPListener
+
+func verifAcceptLoop(ln *net.TCPListener) {
+	for {
+		c, err := ln.Accept()
+		if err != nil {
+			return
+		}
+		c.Close()
+	}
+}
+
+func verifOrPort() *net.TCPAddr {
+	if verifOrLn == nil {
+		ln, err := net.ListenTCP("tcp", &net.TCPAddr{IP: net.IPv4(127, 0, 0, 1)})
+		if err != nil {
+			panic(err)
+		}
+		verifOrLn = ln
+		go verifAcceptLoop(ln)
+	}
+	return verifOrLn.Addr().(*net.TCPAddr)
+}
+
+// a complete SOCKS5 no-auth CONNECT 127.0.0.1:80 conversation (client side)
+var verifSocksOK = []byte{5, 1, 0, 5, 1, 0, 1, 127, 0, 0, 1, 0, 80}
+
+func (t *verifTerm) handler(kind, path string) bool {
+	var conn net.Conn
+	switch path {
+	case "socksfail", "wrapfail":
+		conn = &verifBufConn{rd: bytes.NewReader(nil)}
+	case "orok":
+		conn = &verifBufConn{rd: bytes.NewReader([]byte("payload from the client"))}
+	case "argsfail", "dialfail", "relay":
+		conn = &verifBufConn{rd: bytes.NewReader(verifSocksOK)}
+	default:
+		return false
+	}
+	f := &verifStubFactory{path: path, remote: &verifBufConn{rd: bytes.NewReader([]byte("payload from the bridge"))}}
+	t.mu.Lock()
+	t.handlers++
+	t.mu.Unlock()
+	termMon = t.m
+	go func() {
+		switch kind {
+		case "client":
+			clientHandler(f, conn, nil)
+		default:
+			// the ORPort is a loopback listener of the driver that closes every connection
+			// at once (a failing DialOr cannot be scripted: goptlib 1.5.0 DialOr panics on
+			// a nil conn)
+			serverHandler(f, conn, &pt.ServerInfo{OrAddr: verifOrPort()})
+		}
+		t.mu.Lock()
+		t.handlers--
+		t.mu.Unlock()
+	}()
+	return true
+}
+
+// ---------------------------------------------------------------- main loop
+
+func verifDriverMain() {
+	race := os.Getenv("OBFS4PROXY_VERIF_DRIVER") == "race"
+	in := bufio.NewReaderSize(os.Stdin, 1<<20)
+	out := bufio.NewWriter(os.Stdout)
+	var r *verifRelay
+	var t *verifTerm
+	reply := func(s string) {
+		out.WriteString(s)
+		out.WriteByte('\n')
+		out.Flush()
+	}
+	for {
+		line, err := in.ReadString('\n')
+		if err != nil && line == "" {
+			return
+		}
+		w := strings.Fields(line)
+		if len(w) == 0 {
+			reply("bad-op")
+			continue
+		}
+		switch {
+		case w[0] == "relay.new" && len(w) == 1:
+			if r != nil {
+				r.end()
+			}
+			r = verifNewRelay()
+			if !verifQuiesce() {
+				reply("not-quiescent")
+				continue
+			}
+			reply("ok " + r.status())
+		case w[0] == "relay.end" && r != nil:
+			ok := r.end()
+			st := r.status()
+			r = nil
+			if !ok {
+				reply("stuck " + st)
+				continue
+			}
+			reply("ok " + st)
+		case (w[0] == "feed" || w[0] == "fin") && len(w) == 3 && r != nil && r.conns[w[1]] != nil:
+			c := r.conns[w[1]]
+			r.mu.Lock()
+			applied := c.fin == ""
+			if applied {
+				if w[0] == "feed" {
+					b, ok := verifUnhex(w[2])
+					if !ok {
+						r.mu.Unlock()
+						reply("bad-op")
+						continue
+					}
+					c.inbox = append(c.inbox, b...)
+				} else if w[2] == "eof" || w[2] == "err" {
+					c.fin = w[2]
+				} else {
+					r.mu.Unlock()
+					reply("bad-op")
+					continue
+				}
+			}
+			r.mu.Unlock()
+			if applied {
+				reply("ok " + r.status())
+			} else {
+				reply("noop " + r.status())
+			}
+		case (w[0] == "rd" || w[0] == "wr" || w[0] == "cl") && len(w) >= 2 && r != nil &&
+			(w[0] == "cl" || len(w) >= 3):
+			if !r.complete(w[1], w) {
+				reply("noop " + r.status())
+				continue
+			}
+			if !verifQuiesce() {
+				reply("not-quiescent " + r.status())
+				continue
+			}
+			reply("ok " + r.status())
+		case w[0] == "term.new" && len(w) == 1:
+			// the monitor without the process-wide parts of newTermMonitor (signal.Notify,
+			// stdin/ppid watchers): same channels, same zero count
+			t = &verifTerm{m: &termMonitor{sigChan: make(chan os.Signal), handlerChan: make(chan int)}}
+			reply("ok " + t.status(race))
+		case w[0] == "term.wait" && len(w) == 2 && t != nil && !t.waiting:
+			flag := w[1] == "1"
+			t.waiting, t.returned = true, ""
+			go func() {
+				s := t.m.wait(flag)
+				t.mu.Lock()
+				t.waiting, t.returned = false, verifSigName(s)
+				t.mu.Unlock()
+			}()
+			if !verifQuiesce() {
+				reply("not-quiescent")
+				continue
+			}
+			reply("ok " + t.status(race))
+		case w[0] == "term.ev" && len(w) == 2 && t != nil:
+			var f func()
+			switch w[1] {
+			case "start":
+				f = t.m.onHandlerStart
+			case "finish":
+				f = t.m.onHandlerFinish
+			case "int":
+				f = func() { t.m.sigChan <- syscall.SIGINT }
+			case "term":
+				f = func() { t.m.sigChan <- syscall.SIGTERM }
+			default:
+				reply("bad-op")
+				continue
+			}
+			t.mu.Lock()
+			t.pending++
+			t.mu.Unlock()
+			go func() {
+				f()
+				t.mu.Lock()
+				t.pending--
+				t.mu.Unlock()
+			}()
+			if !verifQuiesce() {
+				reply("not-quiescent")
+				continue
+			}
+			reply("ok " + t.status(race))
+		case w[0] == "term.handler" && len(w) == 3 && t != nil:
+			if !t.handler(w[1], w[2]) {
+				reply("bad-op")
+				continue
+			}
+			if !verifQuiesce() {
+				reply("not-quiescent")
+				continue
+			}
+			reply("ok " + t.status(race))
+		case w[0] == "term.end" && t != nil:
+			// release whatever is still parked: pending senders first, then the waiter
+			for i := 0; i < 1000; i++ {
+				t.mu.Lock()
+				p, wt := t.pending+t.handlers, t.waiting
+				t.mu.Unlock()
+				if p == 0 && !wt {
+					break
+				}
+				select {
+				case <-t.m.handlerChan:
+				case <-t.m.sigChan:
+				case t.m.sigChan <- syscall.SIGTERM:
+				case <-time.After(10 * time.Millisecond):
+				}
+				verifQuiesce()
+			}
+			t = nil
+			reply("ok")
+		default:
+			reply("bad-op")
+		}
+	}
+}
